@@ -9,7 +9,7 @@ META = dict(
     model_run='PG.Model.SchedRun.run',
     model_targets=['Model/SchedRun.vo'],
     instance_obligations=[
-        'C16_instance (Proofs/SchedInstance.v: disciplined Gen.SchedProg.progs = true by vm_compute, on the programs regenerated from the current source)'],
+        'C16_instance (Proofs/SchedInstance.v: disciplined Gen.SchedProg.progs = true by vm_compute, on the programs regenerated from the current source; includes footprint_ok: the reads/writes the translator derived from the AST equal the declared footprint of every named effect)'],
     technique=('Coq proof over an interleaving semantics of a small shared-memory language (invariants preserved by one act of an arbitrary thread, hence by '
                'every schedule, any number of threads) + programs regenerated from the source by a fail-closed ast translator + trace correspondence under a '
                'deterministic statement-granular scheduler + direct oracle on the real objects'),
